@@ -16,7 +16,7 @@ LEVEL_TEXT = ('Lean 4 theorems about an executable list model of Spectrum whose 
               'one value per wavelength) is preserved by crop/trim/pad/append/resample and by every history, also when an operation is refused; '
               'crop keeps exactly the closed range and is covariant under a change of unit (crop_scale_covariant); trim keeps first-to-last '
               'sample above tolerance; retained samples are unaltered; `integrate s a b` (the model of method="trapz"; the default "simps" is not modelled) is linear in the values and additive at a sample '
-              '(integrate_linear, integrate_additive_at_sample) and exact for piecewise-linear data (trapz_exact_piecewise_linear, integrate_exact_piecewise_linear: equal to the sum over segments of the increments of a primitive of each segment\'s line; trapz_exact_linear_segment for one global line); both rules return one bin per centre (bin_length); trapezoid bins of a non-negative spectrum are non-negative (bin_trapz_nonneg, about `bin` itself), exact for a spectrum whose samples lie on ONE line with all bin edges inside the sampled range (bin_trapz_exact_linear) and, per bin, whenever the two edges of the bin lie in one data segment — the spectrum is linear across that bin, whatever it does elsewhere — the bin is the exact integral of the line of that segment (bin_trapz_exact_per_bin); Simpson bins with symmetric ends are non-negative (bin_simps_nonneg_symmetric); with power preservation the TRAPEZOID bins sum to the trapezoid `integrate` over the centres\' span (bin_preserve_power_sum) and bins normalised by a supplied integral I sum to I for either rule (bin_preserve_power_sum_given); '
+              '(integrate_linear, integrate_additive_at_sample) and exact for piecewise-linear data relative to the hand-defined reference `pwLinearIntegral` (trapz_exact_piecewise_linear, integrate_exact_piecewise_linear: equal to the sum over segments of the increments of a primitive of each segment\'s line; trapz_exact_linear_segment for one global line); both rules return one bin per centre (bin_length); trapezoid bins of a non-negative spectrum are non-negative for non-negative fill values and strictly increasing centres (bin_trapz_nonneg, about `bin` itself; hypotheses 0 ≤ fill_below, 0 ≤ fill_above, StrictInc centres; under preserve_power with a zero raw sum the model value is 0 by ℚ\'s x/0 = 0 whereas the code returns nan/inf — see ASSUMPTIONS), exact for a spectrum whose samples lie on ONE line with all bin edges inside the sampled range (bin_trapz_exact_linear) and, per bin, whenever the two edges of the bin lie in one data segment — the spectrum is linear across that bin, whatever it does elsewhere — the bin is the exact integral of the line of that segment (bin_trapz_exact_per_bin); Simpson bins with symmetric ends are non-negative (bin_simps_nonneg_symmetric); with power preservation the TRAPEZOID bins sum to the trapezoid `integrate` over the centres\' span (bin_preserve_power_sum) and bins normalised by a supplied integral I sum to I for either rule (bin_preserve_power_sum_given); '
               ' refusals leave the spectrum (append/resample/trim/pad) or an emptied grid (crop).')
 LEVEL_NOTE = ('partial: non-negativity of Simpson bins for ends="inside" / integer-dtype centres / under preserve_power, exactness of Simpson bins '
               'and every scipy.integrate.simpson clause are oracle-only. Open known finding KF-C15-bin-integer-centres. '
@@ -159,6 +159,13 @@ def generate(rng, tier):
                     'fa': 0.25, 'fb': [0.75, 1.0][int(rng.integers(0, 2))], 'jit': [int(x) / 8 for x in rng.integers(0, 7, 8)], 'simps': False,
                     'ends': ['symmetric', 'inside'][int(rng.integers(0, 2))], 'pp': False, 'fill': 0.0, 'unit': 'nm', 'req': 'nm', 'omit_unit': bool(rng.integers(0, 2)),
                     'cen_int': True, 'cen_dtype': ['int16', 'int32'][int(rng.integers(0, 2))], 'wscale': True})
+    # preserve_power with a zero raw sum: an all-zero spectrum, or all centres outside the data with fill 0 (the code divides 0/0)
+    for i in range(2 if tier == 'quick' else 20):
+        w, v = _spec(rng, n=int(rng.integers(3, 8)))
+        zero = bool(i % 2)
+        out.append({'kind': 'bin', 'wave': w, 'value': [0.0] * len(w) if zero else v, 'linear': None, 'm': int(rng.integers(2, 6)), 'uniform': True,
+                    'fa': 0.25 if zero else 1.25, 'fb': 0.75 if zero else 1.5, 'jit': [0.0] * 8, 'simps': bool(rng.integers(0, 2)), 'ends': ['symmetric', 'inside'][int(rng.integers(0, 2))],
+                    'pp': True, 'fill': 0.0, 'unit': 'nm', 'req': 'nm', 'omit_unit': False, 'cen_int': False, 'zero_sum': True})
     # the same object sampled / binned, given new values through the `value` setter (and new wavelengths through `wave`), and
     # sampled / binned again: the second answers must be those of the new data
     for i in range(max(n // 12, 10)):
